@@ -101,6 +101,7 @@ EXPECT = {
    "self.steps_check()",
    "if not is_increasing(self.left) or not is_increasing(self.right):\n    raise Exception('Left and right arrays must be increasing')",
    "if np.any(np.asarray(self.left) > np.asarray(self.right)):\n    raise ValueError('Left bound exceeds the right bound at some probability levels')",
+   "if not (np.all(np.isfinite(self.left)) and np.all(np.isfinite(self.right))):\n    raise ValueError('p-box bounds must be finite')",
    "if self.mean is None or self.var is None:\n    self._init_moments()",
    "self._init_range()",
    "self.degenerate_flag()"
@@ -239,12 +240,14 @@ Definition gen_bound_steps_check (bound : list N) : list N :=
   else if Nat.ltb (length bound) steps then interpolate_p N steps p_lo p_hi (linspace N p_lo p_hi (length bound)) bound
   else bound.
 (* Pbox.__init__ + the left / right setters + post_init_check: switch, normalise both lengths, steps_check (assert equal lengths),
-   is_increasing (np.all(np.diff(arr) >= 0)) of both, np.any(left > right) *)
+   is_increasing (np.all(np.diff(arr) >= 0)) of both, np.any(left > right), np.all(np.isfinite(.)) of both (x - x == 0) *)
 Definition gen_mk_staircase_gen (lists : bool) (l r : list N) : res pb :=
   let '(l, r) := gen_left_right_switch lists l r in
   let l := gen_bound_steps_check l in let r := gen_bound_steps_check r in
   if negb (Nat.eqb (length l) (length r)) then Raise AssertionErr
-  else if is_increasing N l && is_increasing N r then (if crosses N l r then Raise ValueErr else Ok (l, r)) else Raise NotIncreasing.
+  else if is_increasing N l && is_increasing N r then (if crosses N l r then Raise ValueErr
+        else if forallb (fun x => neqb N (nsub N x x) nzero) l && forallb (fun x => neqb N (nsub N x x) nzero) r then Ok (l, r) else Raise ValueErr)
+       else Raise NotIncreasing.
 (* Staircase.__neg__: sorted(-np.flip(right)), sorted(-np.flip(left)) (lists) *)
 Definition gen_pneg (p : pb) : res pb :=
   gen_mk_staircase_gen true (nsort N (map (nopp N) (rev (snd p)))) (nsort N (map (nopp N) (rev (fst p)))).
